@@ -159,6 +159,11 @@ Notation run := (run_v true).
 Definition fanout (k : nat) (l : list hook) : list (nat * hook) :=
   flat_map (fun c => map (fun r => (r, c)) (seq 0 k)) l.
 
+(** variant switch: [skip0 = true] = MultiEpochHooks.AfterEpochEnd returns early for epoch number 0 (no receiver sees
+    the end of epoch 0); [fanout] is this tree ([skip0 = false]: one unconditional loop, Gen/C14Facts.v) *)
+Definition fanout_v (skip0 : bool) (k : nat) (l : list hook) : list (nat * hook) :=
+  fanout k (if skip0 then filter (fun c => match c with AfterEnd _ 0 => false | _ => true end) l else l).
+
 (* ---------------------------------------------------------------- a failing hook receiver *)
 
 (** One of the registered hook receivers panics when it receives a chosen call, the first [left] times.
